@@ -13,6 +13,7 @@ import (
 	"sort"
 	"strings"
 	"sync"
+	"sync/atomic"
 	"time"
 
 	"github.com/codelaboratoryltd/bng/pkg/pppoe"
@@ -59,10 +60,10 @@ func radiusServer() *net.UDPAddr {
 }
 
 type Sys struct {
-	Radius  bool // RADIUS configured (else the server accepts every PAP request)
-	NMacs   int
-	NSids   int
-	events  []core.Event
+	Radius bool // RADIUS configured (else the server accepts every PAP request)
+	NMacs  int
+	NSids  int
+	events []core.Event
 }
 
 func NewSys(withRadius bool, nmacs, nsids int) *Sys {
@@ -82,7 +83,9 @@ func NewSys(withRadius bool, nmacs, nsids int) *Sys {
 	return s
 }
 
-func (s *Sys) Name() string { return fmt.Sprintf("pppoe.Server/radius=%v/m%d/s%d", s.Radius, s.NMacs, s.NSids) }
+func (s *Sys) Name() string {
+	return fmt.Sprintf("pppoe.Server/radius=%v/m%d/s%d", s.Radius, s.NMacs, s.NSids)
+}
 func (s *Sys) Config() map[string]any {
 	return map[string]any{"impl": "pppoe.Server", "radius": s.Radius, "nmacs": s.NMacs, "nsids": s.NSids}
 }
@@ -220,6 +223,15 @@ func (in *inst) Apply(ev core.Event) map[string]any {
 	src := mac(m)
 	in.sock.Take()
 	before := len(in.srv.VerifSessions())
+	// traffic counters of the sessions the sender does not own (not part of the state fingerprint: they grow with
+	// every frame of the owner; only whether a FOREIGN frame moves them is reported)
+	type ctr struct{ b, p uint64 }
+	foreign := map[*pppoe.Session]ctr{}
+	for _, ss := range in.srv.VerifSessionManager().GetAllSessions() {
+		if ss.ClientMAC.String() != src.String() {
+			foreign[ss] = ctr{atomic.LoadUint64(&ss.BytesIn), atomic.LoadUint64(&ss.PacketsIn)}
+		}
+	}
 	switch op {
 	case "PADI":
 		in.deliver(src, true, discovery(pppoe.CodePADI, 0, []pppoe.Tag{{Type: pppoe.TagServiceName, Value: []byte("internet")}, {Type: pppoe.TagHostUniq, Value: []byte{byte(m)}}}))
@@ -263,7 +275,14 @@ func (in *inst) Apply(ev core.Event) map[string]any {
 	sort.Strings(toks)
 	// does the event authenticate by the rules of the property? (RADIUS outcome is the script)
 	accept := op == "PAPGOOD" || (!in.s.Radius && (op == "PAPBAD"))
-	return map[string]any{"out": toks, "accept": accept}
+	touched := []int{}
+	for ss, c := range foreign {
+		if atomic.LoadUint64(&ss.BytesIn) != c.b || atomic.LoadUint64(&ss.PacketsIn) != c.p {
+			touched = append(touched, int(ss.ID))
+		}
+	}
+	sort.Ints(touched)
+	return map[string]any{"out": toks, "accept": accept, "touched": touched}
 }
 
 func toInt(v any) int {
@@ -350,6 +369,6 @@ func lcpIDs(in *inst) string {
 }
 
 func (in *inst) Probe() map[string]any { return nil }
-func (in *inst) Close()                 {}
+func (in *inst) Close()                {}
 
 var _ = context.Background
